@@ -101,7 +101,7 @@ def decode_contract(n):
 
 
 ENCODE = [encode_contract(n) for n in (16, 1, 2, 3)]
-DECODE = [decode_contract(n) for n in (16, 1, 2, 3)]
+DECODE = [decode_contract(n) for n in (16, 1, 2, 3, 8)]
 
 
 def roundtrip_lemma(n):
@@ -116,7 +116,8 @@ def roundtrip_lemma(n):
 def get_kids(eng, e, a, kw):
     """models.Key.get_kids(hex ids) (SQLAlchemy query, assumed): the stored keys whose hkid is in the list, keyed by hkid.
     Membership is data: one branch per stored key."""
-    hexes = a[0].items if isinstance(a[0], PyList) else list(a[0])
+    hexes = [b2a_hex(x.f['raw']) if isinstance(x, Obj) and x.cls == 'KeyMaterial' else x
+             for x in (a[0].items if isinstance(a[0], PyList) else list(a[0]))]
     out = {}
     for j in range(NSTORED):
         kid, key = stored(j)
@@ -127,9 +128,11 @@ def get_kids(eng, e, a, kw):
     return out
 
 
-def post_contract(variant, nreq, req_fields):
+def post_contract(variant, nreq, req_fields, short=0):
+    """`short`: that many further ids of 8 bytes (11 symbols): valid base64url, but no key id - they are unknown ids"""
     def env(w):
-        ids = [B64Text(bv(f'q{i}_', 22, 6), URL_ALPHABET) for i in range(nreq)]
+        ids = [B64Text(bv(f'q{i}_', 22, 6), URL_ALPHABET) for i in range(nreq)] + \
+              [B64Text(bv(f'h{i}_', 11, 6), URL_ALPHABET) for i in range(short)]
         req = {}
         if 'kids' in req_fields:
             req['kids'] = PyList(list(ids))
@@ -159,18 +162,20 @@ def post_contract(variant, nreq, req_fields):
         canaries=["length(result.data['keys']) > 2"] if 'type' in req_fields and 'kids' in req_fields else [],
         witness_terms=lambda w: (lambda ev: dict(
             {nm: [ev(z3.BitVec(f'{nm}{i}', 8)) for i in range(n)] for nm, n in names},
-            **{f'q{i}_': [ev(z3.BitVec(f'q{i}_{k}', 6)) for k in range(22)] for i in range(nreq)})),
+            **{f'q{i}_': [ev(z3.BitVec(f'q{i}_{k}', 6)) for k in range(22)] for i in range(nreq)},
+            **{f'h{i}_': [ev(z3.BitVec(f'h{i}_{k}', 6)) for k in range(11)] for i in range(short)})),
     )
 
 
 POST = [post_contract('one-id', 1, ('kids', 'type')), post_contract('two-ids', 2, ('kids', 'type')),
-        post_contract('no-ids', 0, ('kids', 'type')),
+        post_contract('no-ids', 0, ('kids', 'type')), post_contract('one-id-and-a-short-id', 1, ('kids', 'type'), short=1),
         post_contract('kids-missing', 0, ('type',)), post_contract('type-missing', 1, ('kids',))]
 
 
 def _world():
     w = world()
     w['stored_kid'] = lambda j: stored(j)[0]
+    w['__inline_ctors__'] = {'KeyMaterial': 'dashlive/drm/keymaterial.py'}
     return w
 
 
@@ -184,7 +189,8 @@ GROUP = Group(
         'standard character (obligation b64decode.standard_alphabet) - CPython, trusted',
         'C11: models.Key.get_kids (SQLAlchemy query) returns exactly the stored keys whose lowercase hex id is in the list; the '
         'key store holds two keys with distinct ids in the proved variants; requested ids are 22-symbol unpadded base64url '
-        'texts (16 bytes) - ids of other lengths or with foreign characters are not covered',
+        'texts (16 bytes), in one variant accompanied by an 11-symbol text (8 bytes: valid base64url, no key id); other lengths and '
+        'foreign characters are not covered',
         'C11: flask.request.json is the parsed request body; jsonify builds the response from its argument and status',
     ],
     trusted=['pyvc/models/bytesmodel.py (B64Text: base64 text as 6-bit groups rendered through a 64-entry table)'],
